@@ -109,4 +109,43 @@ theorem conforms_of_below (T : Table) (hb : boundsOk T = true) (hf : conformsBel
       rw [implRow_above T hb st c hc', specRow_above st c hc']
       exact hst.1 cut (List.mem_range.mpr (by omega))
 
+/-! ### two tables with the same rows -/
+
+def sameFn (f g : StateFn) : Bool :=
+  (List.range (cut + 1)).all (fun c => decide (f.row (.rune c) = g.row (.rune c))) &&
+  decide (f.row .eof = g.row .eof) &&
+  (f.pre.contains .deferClearIgnoreST == g.pre.contains .deferClearIgnoreST)
+
+def sameRows (T U : Table) : Bool :=
+  sameFn T.anywhere U.anywhere && allStates.all fun st => sameFn (T.fn st) (U.fn st)
+
+theorem sameFn_row (f g : StateFn) (hf : clearAbove f.bounds cut = true) (hg : clearAbove g.bounds cut = true)
+    (h : sameFn f g = true) (i : Inp) : f.row i = g.row i := by
+  simp only [sameFn, Bool.and_eq_true, List.all_eq_true, decide_eq_true_eq] at h
+  cases i with
+  | eof => exact h.1.2
+  | rune c =>
+    by_cases hc : c ≤ cut
+    · exact h.1.1 c (List.mem_range.mpr (by omega))
+    · rw [StateFn.row_const_above f cut c hf (by omega), StateFn.row_const_above g cut c hg (by omega)]
+      exact h.1.1 cut (List.mem_range.mpr (by omega))
+
+theorem runFn_congr (f g : StateFn) (hf : clearAbove f.bounds cut = true) (hg : clearAbove g.bounds cut = true)
+    (h : sameFn f g = true) (i : Inp) (s : PState) : runFn f i s = runFn g i s := by
+  have hr := sameFn_row f g hf hg h i
+  have hp : f.pre.contains .deferClearIgnoreST = g.pre.contains .deferClearIgnoreST := by
+    simp only [sameFn, Bool.and_eq_true, beq_iff_eq] at h; exact h.2
+  simp only [runFn, hr, hp]
+
+/-- Tables with the same rows give the same `step`. -/
+theorem step_congr (T U : Table) (hT : boundsOk T = true) (hU : boundsOk U = true)
+    (h : sameRows T U = true) (s : PState) (i : Inp) : step T s i = step U s i := by
+  simp only [boundsOk, Bool.and_eq_true, List.all_eq_true] at hT hU
+  simp only [sameRows, Bool.and_eq_true, List.all_eq_true] at h
+  unfold step
+  rw [runFn_congr _ _ hT.1 hU.1 h.1 i s]
+  have : ∀ s1 : PState, runFn (T.fn s1.state) i s1 = runFn (U.fn s1.state) i s1 := fun s1 =>
+    runFn_congr _ _ (hT.2 _ (mem_allStates _)) (hU.2 _ (mem_allStates _)) (h.2 _ (mem_allStates _)) i s1
+  simp only [this]
+
 end VaxisModel.Lemmas.ParserConform
